@@ -59,6 +59,7 @@ type Exec struct {
 	pruned    int
 	unitOrd   map[string]int // call-site chain + call -> ordinal of the callee's short name across the inline tree
 	unitCnt   map[string]int // short callee name -> number of static call sites across the inline tree
+	unitSeq   []unitCall     // the static call sites of the inline tree in order
 	root      *Frame
 }
 
@@ -333,7 +334,7 @@ func runFunction(prog *Prog, name string, fn *ssa.Function, con *Contract) *Exec
 	ex.buildUnitOrds(fn)
 	ex.root = f
 	for _, callee := range sortedKeys(con.CallSites) {
-		n := ex.unitCnt[callee]
+		n := ex.unitCount(callee)
 		// deferred and go'd calls of the unit itself
 		for _, b := range fn.Blocks {
 			for _, in := range b.Instrs {
@@ -341,11 +342,7 @@ func runFunction(prog *Prog, name string, fn *ssa.Function, con *Contract) *Exec
 					continue
 				}
 				if ci, ok := in.(ssa.CallInstruction); ok {
-					nm := prog.calleeName(ci.Common())
-					if k := strings.LastIndex(nm, "."); k >= 0 {
-						nm = nm[k+1:]
-					}
-					if nm == callee {
+					if calleeMatches(callee, prog.calleeName(ci.Common())) {
 						n++
 					}
 				}
@@ -367,12 +364,45 @@ func runFunction(prog *Prog, name string, fn *ssa.Function, con *Contract) *Exec
 	return ex
 }
 
+type unitCall struct{ key, name string }
+
+// calleeMatches: a contract names a callee by its last component ("Sign") or,
+// where that is ambiguous, by a qualified suffix ("Sign1.Sign", "kex.Suite.New").
+func calleeMatches(pat, full string) bool {
+	return full == pat || strings.HasSuffix(full, "."+pat)
+}
+
+// unitOrdinal: the ordinal of the call site `key` among the static call sites of
+// the inline tree whose callee matches pat (0 if it is not one of them).
+func (ex *Exec) unitOrdinal(pat, key string) int {
+	n := 0
+	for _, c := range ex.unitSeq {
+		if calleeMatches(pat, c.name) {
+			n++
+			if c.key == key {
+				return n
+			}
+		}
+	}
+	return 0
+}
+
+func (ex *Exec) unitCount(pat string) int {
+	n := 0
+	for _, c := range ex.unitSeq {
+		if calleeMatches(pat, c.name) {
+			n++
+		}
+	}
+	return n
+}
+
 // buildUnitOrds numbers the static call sites of the unit per callee short name
 // across the tree of helpers that will be inlined (block order, depth first).
 // Anchoring callassert/callsites on these numbers makes "extract these lines
 // into a helper" a harmless edit: the call keeps its ordinal.
 func (ex *Exec) buildUnitOrds(fn *ssa.Function) {
-	ex.unitOrd, ex.unitCnt = map[string]int{}, map[string]int{}
+	ex.unitOrd, ex.unitCnt, ex.unitSeq = map[string]int{}, map[string]int{}, nil
 	var walk func(fn *ssa.Function, chain string, depth int, stack []*ssa.Function)
 	walk = func(fn *ssa.Function, chain string, depth int, stack []*ssa.Function) {
 		for _, b := range fn.Blocks {
@@ -400,6 +430,7 @@ func (ex *Exec) buildUnitOrds(fn *ssa.Function) {
 				ex.unitCnt[short]++
 				key := chain + fmt.Sprintf("%p", x)
 				ex.unitOrd[key] = ex.unitCnt[short]
+				ex.unitSeq = append(ex.unitSeq, unitCall{key: key, name: name})
 				if callee == nil || len(callee.Blocks) == 0 || depth >= 4 {
 					continue
 				}
@@ -419,7 +450,7 @@ func (ex *Exec) buildUnitOrds(fn *ssa.Function) {
 				inl := false
 				if con != nil && con.Inline {
 					inl = true
-				} else if con == nil && !ex.prog.CS.isPure(name) && ex.inModule(callee) && len(ex.prog.loopInfo(callee).headers) == 0 && instrCount(callee) <= 60 && depth < 3 {
+				} else if con == nil && !ex.prog.CS.isPure(name) && ex.inModule(callee) && len(ex.prog.loopInfo(callee).headers) == 0 && instrCount(callee) <= 100 && depth < 3 {
 					inl = true
 				}
 				if inl {
